@@ -51,7 +51,7 @@ struct CgSet {
     for (auto& r : rows) { LinQ l(n); if (r.m == 0) { l.c = r.a; l.c0 = r.b; f = f && g_iszero(l, p); } else { for (unsigned j = 0; j < n; ++j) l.c[j] = r.a[j] / r.m; l.c0 = r.b / r.m; f = f && g_isint(l, p); } }
     return f;
   }
-  bool trivially_universe() const { for (auto& r : rows) { for (auto& e : r.a) if (e != 0) return false; if (r.m == 0 ? r.b != 0 : (r.b / r.m).get_den() != 1) return false; } return true; }
+  bool trivially_universe() const { for (auto& r : rows) { for (auto& e : r.a) if (e != 0) return false; if (r.m == 0 ? r.b != 0 : mpq_class(r.b / r.m).get_den() != 1) return false; } return true; }
 };
 
 // p + Z-span(params) + Q-span(lines)
